@@ -12,7 +12,7 @@ REQ = {
     "C04": {"faults": ["memo_evict", "rejected_insert", "partially_rejected_insert"],
             "probes": ["insert_on_existing_knot", "insert_on_knot_mult_ge_2", "evalpts_checked_after_modification", "reject_after_cache_warm",
                        "unnormalised_object", "object:volume", "object:surface:rational", "object:curve"]},
-    "C06": {"faults": ["memo_evict"],
+    "C06": {"faults": ["memo_evict", "rejected_remove"],
             "probes": ["removal_after_unrelated_operation", "removal_count_ge_2", "partial_removal", "full_restoration_checked",
                        "refine_as_source_of_removable_knots", "unnormalised_object", "object:volume:rational"]},
     "C09": {"faults": ["rejected_setter"],
@@ -28,7 +28,7 @@ REQ = {
             "probes": ["mesh_observed_after_intervening_change", "vertex_spacing_gt_1", "container_mesh_checked", "quad_checked",
                        "mesh_file_checked:obj", "mesh_file_checked:off", "mesh_file_checked:stl_ascii", "mesh_file_checked:stl_bin",
                        "trim_cell_inside_checked", "trim_cell_outside_checked", "container_tessellate_hit_by_worker_fault", "mesh_export_hit_by_fault"]},
-    "C16": {"faults": ["memo_evict", "rejected_input"],
+    "C16": {"faults": ["memo_evict", "rejected_input:nonsquare", "rejected_input:singular", "rejected_input:singular_zero_column", "rejected_input:needs_pivot", "rejected_input:rhs_mismatch", "rejected_input:mutate_result"],
             "probes": ["identity_consumer_after_swap_same_size", "row_swap_performed", "row_swap_needed"]},
     "C17": {"faults": ["worker_raises", "slow_worker", "late_result"],
             "probes": ["config_dim:num_procs", "config_dim:span", "config_dim:evaluator", "config_dim:normalize", "config_dim:cache_size",
